@@ -20,46 +20,91 @@ def leaf(obj_index):
     return Primitive("o%d" % obj_index, INT)
 
 
-def dfta_filter(i, accepting, envs):
-    """A real DFTAFilter that answers envs[obj][i] on the leaf program of object obj."""
+def head():
+    from synth.syntax.program import Primitive
+    from synth.syntax.type_system import INT, Arrow
+    return Primitive("g", Arrow(INT, INT))
+
+
+def obj_prog(obj, wrapped):
+    """the program standing for object obj: a leaf, or (g leaf) when some base is a LocalStatelessFilter
+    (local filters only look at applications)"""
+    from synth.syntax.program import Function
+    return Function(head(), [leaf(obj)]) if wrapped else leaf(obj)
+
+
+def dfta_filter(i, accepting, envs, wrapped=False):
+    """A real DFTAFilter that answers envs[obj][i] on the program of object obj."""
     from synth.filter.dfta_filter import DFTAFilter
     from synth.syntax.automata.tree_automaton import DFTA
     rules = {}
     for obj, env in enumerate(envs):
         if bool(env[i]) == bool(accepting):
             rules[(leaf(obj), ())] = 0
+    if wrapped:
+        rules[(head(), (0,))] = 0
     return DFTAFilter(DFTA(rules, {0}), accepting_dfta=bool(accepting))
 
 
-def build(e, box, bases=None, envs=None):
+def local_filter(i, envs):
+    """A real LocalStatelessFilter with a rule for the head g: rejects (g o<obj>) iff envs[obj][i] is false."""
+    from synth.filter.local_stateless_filter import LocalStatelessFilter
+    return LocalStatelessFilter({"g": lambda a: not bool(envs[int(a.primitive[1:])][i])})
+
+
+def build(e, box, bases=None, envs=None, nodes=None, wrapped=False):
+    """builds the filter object of expression e; every sub-expression's object is appended to nodes
+    (children first, left to right, then the node)"""
     k = e[0]
+    sub = lambda x: build(x, box, bases, envs, nodes, wrapped)
     if k == 0:
         if bases is not None and bases[e[1]][0] == "dfta":
-            return dfta_filter(e[1], bases[e[1]][1], envs)
-        return Stub(e[1], box)
-    if k == 1:
-        return -build(e[1], box, bases, envs)
-    if k == 2:
-        return build(e[1], box, bases, envs) & build(e[2], box, bases, envs)
-    if k == 3:
-        return build(e[1], box, bases, envs) | build(e[2], box, bases, envs)
-    if k == 4:
-        return IntersectionFilter(*[build(x, box, bases, envs) for x in e[1:]])
-    if k == 5:
-        return UnionFilter(*[build(x, box, bases, envs) for x in e[1:]])
-    return NegFilter(build(e[1], box, bases, envs))
+            f = dfta_filter(e[1], bases[e[1]][1], envs, wrapped)
+        elif bases is not None and bases[e[1]][0] == "local":
+            f = local_filter(e[1], envs)
+        else:
+            f = Stub(e[1], box)
+    elif k == 1:
+        f = -sub(e[1])
+    elif k == 2:
+        a = sub(e[1])
+        b = sub(e[2])
+        f = a & b
+    elif k == 3:
+        a = sub(e[1])
+        b = sub(e[2])
+        f = a | b
+    elif k == 4:
+        f = IntersectionFilter(*[sub(x) for x in e[1:]])
+    elif k == 5:
+        f = UnionFilter(*[sub(x) for x in e[1:]])
+    else:
+        f = NegFilter(sub(e[1]))
+    if nodes is not None:
+        nodes.append(f)
+    return f
 
 
 def impl(case):
     if case["kind"] == "algebra":
         e, envs = case["data"]
         box = [None]
-        f = build(e, box, case.get("bases"), envs)
-        out = []
-        for obj, env in enumerate(envs):
-            box[0] = env
-            out.append([1 if f.accept(leaf(obj)) else 0, 1 if f.reject(leaf(obj)) else 0])
-        return out
+        bases = case.get("bases")
+        wrapped = bool(bases) and any(b[0] == "local" for b in bases)
+        nodes = []
+        f = build(e, box, bases, envs, nodes, wrapped)
+
+        def answers(g):
+            out = []
+            for obj, env in enumerate(envs):
+                box[0] = env
+                p = obj_prog(obj, wrapped)
+                out.append([1 if g.accept(p) else 0, 1 if g.reject(p) else 0])
+            return out
+        root = answers(f)
+        # every intermediate object is asked again AFTER the whole expression was built:
+        # composing a filter must not change the filters it was composed from
+        return {"root": root, "nodes": [answers(g) for g in nodes]}
     skip, inputs, seq = case["data"]
     ev = DSLEvaluator(O.semantics_dict(sorted(S.PRIMS)))
     ev.skip_exceptions = {S.EXC_BY_ID[i] for i in skip}
